@@ -1,5 +1,21 @@
 # Per-property configuration of bin/check: Lean modules holding the property theorems, level, notes.
 PROPS = {
+    "C05": {
+        "lean": ["Knut.Properties.C05"],
+        "level": "proof",
+        "claim": "PARTIAL proof + metamorphic correspondence. Proved for all directive lists and all permutations of them: ofList_spec (the builder's days are sorted by date and each day holds "
+                 "exactly the directives of its date, per kind, in input order), C05_same_dates, C05_same_day_content (per day and kind the contents are permutations of each other), "
+                 "C05_journal_period_perm (the window-clipping journal period is order-independent), C05_cells_perm (every report cell is invariant under permutation of the report inserts). "
+                 "Not mechanised: commutation of the checker/pipeline steps inside a (day, kind) block. Decided on every run: each journal is written in several directive orders and include-tree "
+                 "layouts (1-5 files, depth <= 3, ./ and ../ paths, sub-directories), loaded by the REAL concurrent loader under different schedule-perturbation seeds (-tags verif), and check "
+                 "verdict, balance output (byte for byte) and print output (same directives per date, identical transaction sequence) are compared across all variants and with the model run on the "
+                 "permuted list.",
+        "note": "Trusted: Lean kernel; axioms propext, Classical.choice, Quot.sound; path.Join/filepath.Dir semantics of include resolution are exercised, not modelled; goroutine arrival order is "
+                "sampled through schedule perturbation (its protocol-level treatment is C19).",
+        "rule": "150 (quick) / 4000 (thorough) journals x 5-10 variants; variant 0 = original order in one file; others = random permutation distributed over a random include tree; a fifth of "
+                "the journals carry a lifecycle mutation so that rejecting verdicts are compared too. class = (verdict, flag signature, number of tree shapes, size).",
+        "assumptions": ["journals with two prices for one commodity pair on one day are not generated (excluded by the property)"],
+    },
     "C03": {
         "lean": ["Knut.Properties.C03"],
         "level": "proof",
